@@ -51,8 +51,6 @@ TRUSTED = [
     "extraction (ExtrOcamlBasic only) + OCaml 4.13.1 + coq/extract/c20_driver.ml (hex transport, printing)",
     "harness/c20.cpp: includes src/cli/main.cpp with main renamed; quick tier is built -O0 without sanitizers "
     "(a sanitized build of the tool takes about 4 minutes), thorough tier with ASan/UBSan",
-    "a matrix with zero columns cannot be represented as a list of rows (files whose every token is garbage "
-    "are not generated)",
 ]
 
 ASSUMPTIONS = [
@@ -61,13 +59,21 @@ ASSUMPTIONS = [
     "contains neither the delimiter nor a newline' are hypotheses of cli_roundtrip",
     "the delimiter is not the newline character",
     "methods that draw random numbers (fa, spe, ra, t-sne, manifold_sculpting, landmark variants, randomized "
-    "eigensolver, VP-tree neighbours) are compared on exit status and parameter echo only",
+    "eigensolver, VP-tree neighbours) are compared on their output under a fixed seed: the harness answers the "
+    "tool's srand(time(NULL)) with the case's seed (srand interposed in the harness executable, src/cli unedited) "
+    "and seeds tapkee::random_shuffle through hook H1; the in-process reference is seeded the same way; never "
+    "combined with --precompute; OMP_NUM_THREADS=1",
 ]
 
 DET_METHODS = ["lle", "locally_linear_embedding", "ltsa", "hlle", "mds", "multidimensional_scaling", "isomap",
                "dm", "diffusion_map", "kpca", "kernel_pca", "pca", "la", "laplacian_eigenmaps", "lpp", "npe",
                "lltsa", "passthru"]
-LINEAR = {"pca", "lpp", "npe", "lltsa"}
+LINEAR = {"pca", "lpp", "npe", "lltsa", "ra", "random_projection"}
+# methods that draw random numbers (std::rand / tapkee::random_shuffle): compared on their OUTPUT under a fixed
+# seed (harness: C20_SEED answers the tool's srand(time(NULL)) and seeds hook H1; `c20 lib` does the same)
+RANDOM_METHODS = ["spe", "stochastic_proximity_embedding", "ra", "random_projection", "fa", "factor_analysis",
+                  "t-sne", "t-stochastic_proximity_embedding", "manifold_sculpting", "l-mds",
+                  "landmark_multidimensional_scaling", "l-isomap", "landmark_isomap"]
 
 
 # ----------------------------------------------------------------------------- source tables
@@ -204,7 +210,7 @@ class Tool:
     def path(self, name):
         return os.path.join(self.dir, name)
 
-    def cli(self, argv, content, extra_files=()):
+    def cli(self, argv, content, extra_files=(), seed=None):
         """run the tool on a fresh input file; returns dict(rc, out, err, output, timed_out, files)"""
         self.n += 1
         fin, fout = self.path("in.txt"), self.path("out.txt")
@@ -214,7 +220,8 @@ class Tool:
             if os.path.exists(p):
                 os.remove(p)
         self.last_argv = ["-i", fin, "-o", fout] + list(argv)
-        r = self.ctx.run([self.exe, "cli"] + self.last_argv, "", timeout=60, env=self.env)
+        env = self.env if seed is None else dict(self.env, C20_SEED=str(seed))
+        r = self.ctx.run([self.exe, "cli"] + self.last_argv, "", timeout=60, env=env)
         res = {"rc": r.rc, "err": r.err, "out": r.out, "timed_out": r.timed_out, "output": None, "files": {}}
         if os.path.exists(fout):
             res["output"] = open(fout, "rb").read().decode("latin-1")
@@ -449,11 +456,16 @@ def gen_file_case(rng):
     d = rng.choice(DELIMS)
     # the library wants target_dimension < #samples even for pass-through: --td 1 and at least 2 rows and columns
     nrows, ncols = rng.choice([2, 3, 3, 4, 5]), rng.choice([2, 3, 3, 4])
-    mode = rng.choice(["clean", "clean", "clean", "garbage", "unequal", "blank", "crlf", "nonl", "nonl"])
+    mode = rng.choice(["clean", "clean", "clean", "garbage", "unequal", "blank", "crlf", "nonl", "nonl"] +
+                      (["nonumbers"] if rng.random() < 0.35 else []))
     rows = []
     for i in range(nrows):
         toks = [rng.choice([t for t in VALID_TOKENS if d not in t]) for _ in range(ncols)]
         rows.append(toks)
+    if mode == "nonumbers":
+        # no line holds a number: every row is empty, the matrix has zero columns
+        rows = [[rng.choice([g for g in GARBAGE_TOKENS if d not in g and g.strip()])
+                 for _ in range(rng.choice([1, 2, 3]))] for _ in range(nrows)]
     if mode == "garbage":
         # garbage tokens are skipped silently: keep the number of valid tokens per row equal or not
         for r in rows:
@@ -475,10 +487,7 @@ def gen_file_case(rng):
             lines.append("")
     eol = "\r\n" if mode == "crlf" else "\n"
     content = eol.join(lines) + (eol if mode != "nonl" else "")
-    # a row whose first valid token list is empty while others are not is fine (error); a file with no
-    # valid token at all has no list-of-rows representation: regenerate
-    if not any(valid_token(t) for l in content.split("\n") for t in l.split(d)):
-        return gen_file_case(rng)
+    # a file without any valid token is N samples of dimension 0 (the model carries the sample count)
     flags = [f for f in ("transpose-input", "transpose-output") if rng.random() < 0.4]
     args = [("m", "passthru"), ("td", "1")] + ([("d", d)] if d != "," or rng.random() < 0.3 else []) + [(f, None) for f in flags]
     return {"kind": "file", "mode": mode, "args": args, "content": content}
@@ -652,11 +661,31 @@ def gen_lib_case(rng, tables):
             p = [x + 0.25 * rng.randrange(1, 8) for x in p]
         seen.add(tuple(p))
         uniq.append(p)
-    m = rng.choice(DET_METHODS)
+    randomised = rng.random() < 0.4
+    m = rng.choice(RANDOM_METHODS if randomised else DET_METHODS)
     args = [(rng.choice(["m", "method"]), m)]
     args.append((rng.choice(["k", "num-neighbors"]), str(rng.choice([4, 5, 6, 8]))))
     if rng.random() < 0.6:
         args.append((rng.choice(["td", "target-dimension"]), str(rng.choice([1, 2, 2, 3]))))
+    if randomised:
+        args.append(("max-iters", str(rng.choice([1, 2, 5, 10]))))
+        if m.startswith("t-s"):
+            args.append(("sne-perplexity", rng.choice(["2", "3", "2.5"])))
+            if rng.random() < 0.7:
+                args.append(("sne-theta", rng.choice(["0", "0", "0.5", "0.25"])))
+        if m.startswith("l-") or m.startswith("landmark"):
+            args.append(("landmark-ratio", rng.choice(["0.5", "0.75", "0.4"])))
+        if m in ("spe", "stochastic_proximity_embedding"):
+            if rng.random() < 0.5:
+                args.append(("spe-local", None))
+            if rng.random() < 0.5:
+                args.append(("spe-num-updates", rng.choice(["5", "20", "100"])))
+            if rng.random() < 0.3:
+                args.append(("spe-tolerance", rng.choice(["1e-3", "0.1"])))
+        if m == "manifold_sculpting" and rng.random() < 0.5:
+            args.append(("squishing-rate", rng.choice(["0.9", "0.5"])))
+        if m in ("fa", "factor_analysis") and rng.random() < 0.5:
+            args.append(("fa-epsilon", rng.choice(["1e-3", "0.1"])))
     if rng.random() < 0.4:
         args.append((rng.choice(["gw", "gaussian-width"]), rng.choice(["0.5", "2", "4"])))
     if rng.random() < 0.3:
@@ -664,8 +693,14 @@ def gen_lib_case(rng, tables):
     if rng.random() < 0.3:
         args.append(("eigenshift", rng.choice(["1e-6", "1e-3", "0"])))
     if rng.random() < 0.4:
-        args.append((rng.choice(["nm", "neighbors-method"]), rng.choice(["brute", "covertree"])))   # the VP-tree draws vantage points with rand()
-    flags = [f for f in ("transpose-input", "transpose-output", "precompute") if rng.random() < 0.35]
+        args.append((rng.choice(["nm", "neighbors-method"]), rng.choice(["brute", "covertree", "vptree"])))   # the VP-tree draws vantage points with rand()
+    if rng.random() < 0.15:
+        args.append((rng.choice(["em", "eigen-method"]), rng.choice(["dense", "randomized"])))
+    uses_rand = randomised or any(v in ("vptree", "randomized") for _, v in args)
+    # --precompute changes the order of floating point operations; an iterative randomised method may amplify
+    # that, so the 1e-4 slack of the --precompute stream is only granted to the deterministic methods
+    flags = [f for f in ("transpose-input", "transpose-output") + (() if uses_rand else ("precompute",))
+             if rng.random() < 0.35]
     args += [(f, None) for f in flags]
     d = rng.choice([",", ",", " ", ";"])
     if d != ",":
@@ -675,7 +710,8 @@ def gen_lib_case(rng, tables):
     proj = rng.choice(["both", "both", "mat", "mean"]) if (rng.random() < 0.6 and m in LINEAR) else False
     file_rows = transpose(uniq) if "transpose-input" in flags else uniq
     content = write_text(file_rows, d)
-    return {"kind": "lib", "args": args, "content": content, "points": uniq, "proj": proj}
+    return {"kind": "lib", "args": args, "content": content, "points": uniq, "proj": proj,
+            "seed": rng.randrange(1, 2 ** 31 - 1)}
 
 
 # ----------------------------------------------------------------------------- evaluation
@@ -895,7 +931,8 @@ class Checker:
             elif mo.startswith("DONE"):
                 h = mo.split()[1]
                 text = "" if h == "-" else bytes.fromhex(h).decode("latin-1")
-                mrows = [[fmt(float(t.strip())) for t in l.split(d)] for l in text.split("\n") if l != ""]
+                mlines = text.split("\n")[:-1] if text.endswith("\n") else text.split("\n")
+                mrows = [[fmt(float(t.strip())) for t in l.split(d)] if l != "" else [] for l in mlines]
                 mtext = "".join(d.join(r) + "\n" for r in mrows)
                 if res["rc"] != 0 or res["output"] != mtext:
                     ctx.mismatch(c, "model output %r vs tool rc=%d output %r" % (mtext[:100], res["rc"],
@@ -922,6 +959,8 @@ class Checker:
                     body = repr(float(Fraction(body)))
                 kv.append("%s=%s" % (k, body))
             pts = c["points"]
+            if c.get("seed") is not None:
+                kv.append("seed=%d" % int(c["seed"]))
             lines.append(" ".join(kv) + " data %d %d " % (len(pts), len(pts[0])) +
                          " ".join(float(x).hex() for p in pts for x in p))
             idx.append(i)
@@ -938,7 +977,7 @@ class Checker:
             extra = ["pm.txt", "pv.txt"] if proj else []
             argv = argv_of(args) + (["--opmat", self.tool.path("pm.txt")] if proj in ("both", "mat") else []) \
                 + (["--opmean", self.tool.path("pv.txt")] if proj in ("both", "mean") else [])
-            res = self.tool.cli(argv, c["content"], extra_files=extra)
+            res = self.tool.cli(argv, c["content"], extra_files=extra, seed=c.get("seed"))
             self.evals += 1
             meth = dict((n, v) for n, v in args if n in ("m", "method")).popitem()[1]
             self.count("lib:" + meth)
@@ -1014,8 +1053,6 @@ def gen_small_files(limit=None):
             for end in ("\n", ""):
                 lines = [",".join(r1)] + ([",".join(r2)] if r2 is not None else [])
                 content = "\n".join(lines) + end
-                if not any(valid_token(t) for l in lines for t in l.split(",")):
-                    continue
                 out.append({"kind": "file", "mode": "small", "args": [("m", "passthru"), ("td", "1")], "content": content})
     return out if limit is None else out[:: max(1, len(out) // limit)]
 
